@@ -127,6 +127,9 @@ def gen_cases(ctx):
                         cases.append({"kind": "levels", "param": param, "subset": s, "polarity": pol, "seed": 4 * rng.randrange(1 << 20) + t})
                 else:
                     cases.append({"kind": "levels", "param": param, "subset": s, "polarity": pol, "seed": rng.randrange(1 << 30)})
+                    if param in ("structname", "template-data", "replace-type"):
+                        # the same levels with all mocks of a package written to one output file (per-file state must not blur per-mock settings)
+                        cases.append({"kind": "levels", "param": param, "subset": s, "polarity": pol, "seed": rng.randrange(1 << 30), "onefile": True})
     # source layering: env < file < flags
     env_params = ["dir", "filename", "pkgname", "structname", "formatter", "template", "force-file-write", "all", "include-interface-regex"]
     for p in env_params:
@@ -205,6 +208,8 @@ def eval_levels(ctx, case):
     param, subset, pol = case["param"], case["subset"], case["polarity"]
     cfg = base_config(param)
     mk = markers(param, subset, rng, pol)
+    if case.get("onefile"):
+        cfg["filename"] = "f_all.go"
     if param == "structname":
         for c in cfg["packages"][MOD + "/pa"]["interfaces"]["I1"]["configs"]:
             c.pop("structname", None)
@@ -283,7 +288,7 @@ def eval_levels(ctx, case):
     r = core.run_mockery(ctx, root, [], timeout=300)
     if r.timed_out:
         return Verdict.inconclusive("watchdog")
-    tags = ["param=" + param, "levels=" + "+".join(subset)]
+    tags = ["param=" + param, "levels=" + "+".join(subset)] + (["one-file-per-package"] if case.get("onefile") else [])
     obs = {"exit": r.exit, "config": cfg}
     if r.panicked:
         return Verdict.violated("mockery crashed", dict(obs, **r.brief()), tags)
@@ -504,7 +509,8 @@ def gen_recleak_case(rng, i):
     c["pk"]["a"] = {"recursive": True, "td": td("A", nested) if rng.random() < 0.8 else None}
     c["pk"]["b"] = {"recursive": False, "td": td("B", nested) if rng.random() < 0.4 else None}
     if rng.random() < 0.6:
-        c["pk"]["a/sub"] = {"recursive": False, "td": td("S", nested) if rng.random() < 0.4 else None}
+        # recursive here: its sibling a/sub2 (whose path merely *starts with* "a/sub") still belongs to `a`
+        c["pk"]["a/sub"] = {"recursive": rng.random() < 0.5, "td": td("S", nested) if rng.random() < 0.6 else None}
     if rng.random() < 0.5:
         c["pk"]["c"] = {"recursive": True, "td": td("C", nested) if rng.random() < 0.6 else None}
     for p in c["pk"]:
@@ -568,6 +574,8 @@ def eval_recleak(ctx, case):
                     return Verdict.violated("package %s is not configured but was mocked" % d, obs, tags)
                 continue
             owner = max(anc, key=len)
+            if any(case["pk"][a]["td"] for a in rec if owner.startswith(a + "/")):
+                continue  # the owner itself sits below a recursive package that sets template-data: what it inherits is not decided by the statement
             between = [q for q in case["pk"] if q != owner and d.startswith(q + "/") and q.startswith(owner + "/")]
             if between:
                 continue  # below an explicitly configured, non-recursive intermediate package: undecided
